@@ -39,6 +39,11 @@ type clientView struct {
 	// which instant a time-less first tag stands for, so the rebasing constant
 	// may then be 0 or the first media tag's decode time.
 	ZeroBase bool
+	// NoTimes: the decode / presentation times of the source frames are not
+	// known to the harness (layer C-RTP: the depacketiser derives them from the
+	// wall clock), so composition time and the timeline are not judged beyond
+	// "first tag zero".
+	NoTimes bool
 }
 
 type failure struct {
@@ -210,7 +215,7 @@ func checkClient(s *Scenario, v *clientView) (*failure, viewStats) {
 			}
 			// composition offset = PTS − DTS in ms, ±1 for the two truncations
 			d := e.Frame.Pts - e.Frame.Dts
-			if lo, hi := floorDiv(d, ms)-1, ceilDiv(d, ms)+1; int64(vd.CompositionTime) < lo || int64(vd.CompositionTime) > hi {
+			if lo, hi := floorDiv(d, ms)-1, ceilDiv(d, ms)+1; !v.NoTimes && (int64(vd.CompositionTime) < lo || int64(vd.CompositionTime) > hi) {
 				return failf("composition-time", "%s: tag %d: composition time %d ms, PTS−DTS = %d ns (allowed %d..%d)", v.Name, i, vd.CompositionTime, d, lo, hi), st
 			}
 			if firstMedia < 0 {
@@ -253,6 +258,9 @@ func checkClient(s *Scenario, v *clientView) (*failure, viewStats) {
 		return failf("first-tag-zero", "%s: the client's first tag (%s) has timestamp %d", v.Name, v.Expected[0].Kind, f.Tags[0].Timestamp), st
 	}
 	st.MediaFirst = firstMedia == 0
+	if v.NoTimes {
+		return nil, st
+	}
 	if firstMedia < 0 {
 		for i, t := range f.Tags {
 			if t.Timestamp != 0 {
